@@ -136,14 +136,17 @@ theorem setMap_valid (sets : List (Bytes × Sql.VExpr))
   | col c => trivial
 
 /-- **UPDATE refines the spec.**  If the store abstracts to `sdb`, the spec accepts the statement
-(`specUpdate … = some sdb'`: the table is known, no `SET col = col`, the condition evaluates on every
-row, every selected row can be rewritten), and the SET literals are values a Go program can hold,
-then the model's `evalUpdate` succeeds, appends one record per updated row to the log, and the store
+(`specUpdate … = some sdb'`: the table is known, no `SET col = col`, the SET columns are columns of
+the table, each set once, the condition evaluates on every row, every selected row can be rewritten),
+the SET literals are values a Go program can hold, and the SET column names are valid UTF-8 (`hutf`:
+the statement's check compares the names as byte strings, the plain model as decoded strings), then
+the model's `evalUpdate` succeeds, appends one record per updated row to the log, and the store
 afterwards abstracts to `sdb'` exactly (row ids included). -/
 theorem evalUpdate_refines_spec (db : Engine.DB) (pt sch : Levels) (tbls : List (Bytes × Levels))
     (sdb sdb' : Spec.SDB) (h : Abs db.store pt sch tbls sdb) (table : Bytes)
     (sets : List (Bytes × Sql.VExpr)) (w : Option Sql.Cond)
     (hvalid : ∀ p ∈ sets, ∀ l, p.2 = .lit l → ValidVal (Engine.litToVal l))
+    (hutf : ∀ p ∈ sets, (Spec.nameStr p.1).toUTF8.toList = p.1)
     (hspec : Spec.specUpdate sdb table sets w = some sdb') :
     ∃ db' t' logs,
       Engine.evalUpdate db table sets w = .ok () db' ∧ db'.wal = db.wal ++ logs ∧
@@ -163,6 +166,11 @@ theorem evalUpdate_refines_spec (db : Engine.DB) (pt sch : Levels) (tbls : List 
         apply hany
         rw [List.any_eq_true]
         exact ⟨p, hp, by simp only [hpc]⟩
+      split at hspec
+      · cases hspec
+      rename_i hnamesB
+      have hnamesOK : Spec.namesOK st (sets.map fun p => Spec.nameStr p.1) = true := by
+        simpa using hnamesB
       cases hsel : Spec.selects st w with
       | none => rw [hsel] at hspec; cases hspec
       | some sel =>
@@ -178,6 +186,20 @@ theorem evalUpdate_refines_spec (db : Engine.DB) (pt sch : Levels) (tbls : List 
           rw [hfind] at hf
           simp only [Option.some.injEq] at hf
           subst hf
+          -- the SET columns
+          have hset : Engine.checkSetColumns (schema.map fun fd => (⟨[], fd.name.toUTF8.toList⟩ : Exec.Field)) []
+              (sets.map (·.1)) = none := by
+            have hutf' : ∀ c ∈ sets.map (·.1), (Spec.nameStr c).toUTF8.toList = c := by
+              intro c hc
+              obtain ⟨p, hp, rfl⟩ := List.mem_map.mp hc
+              exact hutf p hp
+            have hn' : Spec.namesOK (absTable table schema t) ((sets.map (·.1)).map Spec.nameStr) = true := by
+              rw [List.map_map]; exact hnamesOK
+            exact checkSetColumns_of_namesOK (absTable table schema t) (sets.map (·.1))
+              (h.tabs.names_nodup ht hsch) hutf' hn'
+          have hcc : checkColumns schema (sets.map fun p => Engine.bytesToName p.1) = none := by
+            have := checkSetColumns_none_checkColumns schema _ hset
+            rwa [List.map_map] at this
           -- the fetch and the filter
           obtain ⟨s1, efetch, hs1, hc1⟩ := fetchTable_cat h.cat table t ht schema hsch hdec
           obtain ⟨efilter, hsl⟩ := filterIds_selects table schema (rowsOf schema (live t)) w sel hsel
@@ -198,7 +220,7 @@ theorem evalUpdate_refines_spec (db : Engine.DB) (pt sch : Levels) (tbls : List 
             exact selRows_mem_iff _ sel hnd q hq
           obtain ⟨hcan, hdec', hrows'⟩ := update_rows_agree schema sets (setMap_valid sets hvalid)
             ((selRows (rowsOf schema (live t)) sel).map (·.1)) (live t) sel rows' hdec hlen hKp hrows
-          obtain ⟨s', t', logs, ego, hc', hl', _, hlk', _⟩ := evalUpdate_go_spec db table pt sch schema hsch sets
+          obtain ⟨s', t', logs, ego, hc', hl', _, hlk', _⟩ := evalUpdate_go_spec db table pt sch schema hsch sets hcc
             (selRows (rowsOf schema (live t)) sel) s1 tbls t [] hc1 ht hnd'
             (fun r hr => by
               obtain ⟨c, hc, hck⟩ := mem_rowsOf ((selRows_sublist _ sel).subset hr)
@@ -214,7 +236,7 @@ theorem evalUpdate_refines_spec (db : Engine.DB) (pt sch : Levels) (tbls : List 
               cases hp2 : p.2 with
               | lit l => rw [hp2] at hpe; cases hpe
               | col c => exact hnocol p hp c hp2
-            · simp only [Engine.fetchForExec, Engine.liftS, efetch, efilter]
+            · simp only [Engine.fetchForExec, Engine.liftS, efetch, hset, efilter]
               exact ego
           · rw [← hspec]
             rw [← hl'] at hdec' hrows'
